@@ -328,25 +328,45 @@ class SymInt:
         return NotImplemented
 
     def _bitop(self, o, fn):
+        """bitwise operation on non-negative integers by bit decomposition (div/mod by powers of two: linear integer
+        arithmetic); the width comes from the magnitude bounds (64 bits when unknown).  Negative operands: 128-bit vectors."""
         c = self._coerce(o)
         if c is None:
             return NotImplemented
-        # two's complement over 128 bits covers every magnitude used here
-        a, b = z3.Int2BV(self.t, 128), z3.Int2BV(zint(c), 128)
-        return SymInt(z3.BV2Int(fn(a, b), True))
+        a, b = self.t, zint(c)
+        r = engine.cur()
+        nonneg = r.branch(z3.And(a >= 0, b >= 0))
+        if not nonneg:
+            x, y = z3.Int2BV(a, 128), z3.Int2BV(b, 128)
+            return SymInt(z3.BV2Int({"or": x | y, "and": x & y, "xor": x ^ y}[fn], True))
+        ba, bb = self.bound, ibound(c)
+        width = 64 if ba is None or bb is None else max(int(ba).bit_length(), int(bb).bit_length(), 1)
+        total = z3.IntVal(0)
+        for j in range(width):
+            aj, bj = (a / (1 << j)) % 2, (b / (1 << j)) % 2
+            if fn == "or":
+                bit = z3.If(z3.Or(aj == 1, bj == 1), 1, 0)
+            elif fn == "and":
+                bit = z3.If(z3.And(aj == 1, bj == 1), 1, 0)
+            else:
+                bit = z3.If(aj != bj, 1, 0)
+            total = total + bit * (1 << j)
+        if ba is None or bb is None:
+            r.assume(z3.And(a < (1 << 64), b < (1 << 64)))
+        return SymInt(total, bound=(1 << width) - 1)
 
     def __or__(self, o):
-        return self._bitop(o, lambda a, b: a | b)
+        return self._bitop(o, "or")
 
     __ror__ = __or__
 
     def __and__(self, o):
-        return self._bitop(o, lambda a, b: a & b)
+        return self._bitop(o, "and")
 
     __rand__ = __and__
 
     def __xor__(self, o):
-        return self._bitop(o, lambda a, b: a ^ b)
+        return self._bitop(o, "xor")
 
     __rxor__ = __xor__
 
